@@ -19,6 +19,7 @@ func NewCSVObjectDecoder(prefs CsvPreferences) Decoder {
 }
 
 func (dec *csvObjectDecoder) Init(reader io.Reader) error {
+	verifYield("decoder.Init")
 	cleanReader, enc := utfbom.Skip(reader)
 	log.Debugf("Detected encoding: %s\n", enc)
 	dec.reader = *csv.NewReader(cleanReader)
@@ -47,6 +48,7 @@ func (dec *csvObjectDecoder) createObject(headerRow []string, contentRow []strin
 }
 
 func (dec *csvObjectDecoder) Decode() (*CandidateNode, error) {
+	verifYield("decoder.Decode")
 	if dec.finished {
 		return nil, io.EOF
 	}
